@@ -12,7 +12,7 @@ import random
 from lib import cmds, common, formats, stdresp
 from lib.common import Driver, hx
 
-TARGETS = ["ScsiVerif.Props.C05"]
+TARGETS = ["ScsiVerif.Props.C05", "ScsiVerif.Props.C05b"]
 NEEDS_GEN = True
 
 PLL = {"modeselect6": (4, 1), "modeselect10": (7, 2), "prout": (5, 4), "xcopy": (10, 4)}   # (byte, width) of PARAMETER LIST LENGTH
